@@ -19,6 +19,7 @@ import shutil
 import subprocess
 import sys
 import tempfile
+import threading
 import time
 
 VERIF = os.path.dirname(os.path.dirname(os.path.abspath(__file__)))
@@ -88,6 +89,7 @@ class Ctx:
         self.drift = []
         self.assumptions = []
         self._n = 0
+        self._lock = threading.Lock()
 
     # ---------- build ----------
     def prepare(self, race=False):
@@ -119,14 +121,16 @@ class Ctx:
     def tlc(self, module, cfg, label=None, env=None, workers=None, timeout=900, cfg_text=None,
             simulate=None, depth=None, coverage=False, heap=None, extra=None):
         """Run TLC on spec/<module>.tla with spec/<cfg>.cfg (or cfg_text)."""
-        self._n += 1
+        with self._lock:
+            self._n += 1
+            k = self._n
         label = label or "%s/%s" % (module, cfg)
-        cfgfile = os.path.join(self.spec, "%s_%d.cfg" % (cfg or module, self._n))
+        cfgfile = os.path.join(self.spec, "%s_%d.cfg" % (cfg or module, k))
         if cfg_text is None:
             cfg_text = open(os.path.join(self.spec, cfg + ".cfg")).read()
         with open(cfgfile, "w") as f:
             f.write(cfg_text)
-        md = os.path.join(self.scratch, "md%d" % self._n)
+        md = os.path.join(self.scratch, "md%d" % k)
         java = ["java", "-XX:+UseParallelGC", "-Dfile.encoding=UTF-8", "-Xss64m"]
         if heap:
             java.append("-Xmx" + heap)
@@ -177,6 +181,9 @@ class Ctx:
         if not r.completed or not done:
             raise MachineryError("stage C: trace validation by %s did not finish: %s\n%s" % (module, r.error, r.out[-3000:]))
         d = json.loads(done[-1])
+        if d.get("mach"):
+            raise MachineryError("stage C: %s says %d events are malformed (harness/spec encoding mismatch, not a verdict), first index %s"
+                                 % (module, len(d["mach"]), sorted(d["mach"])[:3]))
         return int(d["n"]), sorted(int(x) for x in d["bad"]), r
 
     # ---------- driver ----------
@@ -388,7 +395,9 @@ def report_bad(ctx, bad, sig_fn, desc_fn, replay_fn, confirm_fn, max_report=6):
 def confirm_by_cases(ctx, cmd, module, extra=None, cfg=None, extra_env=None):
     """Standard confirmation: re-run the driver on the single case of the replay object and re-judge."""
     def fn(rep):
-        k = len(ctx.tlc_runs)
+        with ctx._lock:
+            ctx._n += 1
+            k = ctx._n
         cf = ctx.path("confirm_%d.ndjson" % k)
         write_ndjson(cf, rep["cases"])
         tr = cf + ".trace"
